@@ -219,7 +219,7 @@ theorem ctl_inv3 (idsOf : Nat → List τ) {st st' : LState τ} {k : Nat} {rq : 
     exact Nat.lt_of_lt_of_le (f.newLt o ho n cmd hc) f.nextLe
   unfold Ledger at hled ⊢
   simp only
-  rcases pit.led with ⟨hcs, hpool⟩ | ⟨hcn, col, hcs, hrange⟩
+  rcases pit.led with ⟨hcs, hpool⟩ | ⟨hcn, _, col, hcs, hrange⟩
   · rw [hcs]
     cases hc : st.ctl.sched.collection with
     | none =>
